@@ -266,7 +266,7 @@ fn c19_writebuf_header_names_the_connect_stream() {
     kani::cover!(s > 16384);
 }
 
-// vp: props=C14; tag=C14.writebuf.from.data; kind=complete; tier=quick
+// vp: props=C14,C01; tag=C14.writebuf.from.data; kind=complete; tier=quick
 // WriteBuf::from(Frame::Data(p)): header 00 ++ varint(p.remaining()) — the whole payload, not its first
 // chunk — and p stored untouched, for every payload length < 2^62
 #[kani::proof]
@@ -499,7 +499,7 @@ fn c14_writebuf_buf_payloadless_frames_2() {
     kani::cover!(h == 10 && a1 == 2 && a2 == 8);
 }
 
-// vp: props=C14; tag=C14.writebuf.buf.data; kind=complete; tier=quick
+// vp: props=C14,C01; tag=C14.writebuf.buf.data; kind=complete; tier=quick
 // frame == Data(payload): any header bytes, any pos <= len <= 64, any payload length / chunking, any two
 // advances: header rest first, then the payload advanced by exactly what went past the header
 #[kani::proof]
@@ -608,7 +608,7 @@ fn c14_writebuf_data_view_any_two_advances() {
     kani::cover!(a1 + a2 == n + rem0 && rem0 > 0 && n == 9);
 }
 
-// vp: props=C14; tag=C14.writebuf.data.drain; kind=complete; tier=quick
+// vp: props=C14,C01; tag=C14.writebuf.data.drain; kind=complete; tier=quick
 // the way h3-quinn drains it (write chunk(), advance by what the transport accepted): a partially accepted
 // header leaves exactly its rest; then the payload's chunks in order
 #[kani::proof]
